@@ -8,7 +8,8 @@
 //!          symbols, for each of the ten parsable types, under pvh::catch.  Lossless compression: one
 //!          `parse` event per ACCEPTED string (with its value), per-length `count` events
 //!          (accepted / rejected / panicked), the first few panicking strings per type and length as
-//!          `parse` events with r = -1, and EVERY panicking string in <dir>/sweep.panics.txt.
+//!          `parse` events with r = -1, and the panicking strings themselves (a capped list) in
+//!          <dir>/sweep.panics.txt.
 //!   long   structured enumeration of the long forms: digit strings of the lengths around every
 //!          documented digit count, with up to two positions replaced by non-digit symbols; every
 //!          case is an individual `parse` event.
@@ -207,6 +208,8 @@ const C_PAN: usize = 2;
 const C_ACC_PLUS: usize = 3;
 const C_PAN_MB: usize = 4;
 const KEEP_PANICS_PER_LEN: usize = 3;
+const SIDE_CAP_PER_TYPE: usize = 200_000;
+const SIDE_CAP_PER_TASK: usize = 4_000;
 
 struct SweepRes {
     counts: Vec<[u64; 5]>,
@@ -214,6 +217,7 @@ struct SweepRes {
     pan: Vec<(Vec<u8>, String)>,
     pan_kept: Vec<usize>,
     side: String,
+    side_lines: usize,
 }
 
 struct Sweeper<T: HexTy> {
@@ -243,9 +247,12 @@ impl<T: HexTy> Sweeper<T> {
                     self.res.pan_kept[n] += 1;
                     self.res.pan.push((self.syms.clone(), ascii(&m)));
                 }
-                self.res.side.push_str(T::NAME);
-                for &i in &self.syms { self.res.side.push(' '); self.res.side.push_str(ALPHABET[i as usize].0); }
-                self.res.side.push('\n');
+                if self.res.side_lines < SIDE_CAP_PER_TASK {
+                    self.res.side_lines += 1;
+                    self.res.side.push_str(T::NAME);
+                    for &i in &self.syms { self.res.side.push(' '); self.res.side.push_str(ALPHABET[i as usize].0); }
+                    self.res.side.push('\n');
+                }
             }
         }
     }
@@ -270,7 +277,7 @@ fn sweep_task<T: HexTy>(root: &[u8], maxlen: usize, descend: bool) -> SweepRes {
         buf: root.iter().map(|&i| ALPHABET[i as usize].1).collect(),
         syms: root.to_vec(),
         maxlen,
-        res: SweepRes { counts: vec![[0; 5]; maxlen + 1], acc: vec![], pan: vec![], pan_kept: vec![0; maxlen + 1], side: String::new() },
+        res: SweepRes { counts: vec![[0; 5]; maxlen + 1], acc: vec![], pan: vec![], pan_kept: vec![0; maxlen + 1], side: String::new(), side_lines: 0 },
         _t: std::marker::PhantomData,
     };
     if descend { sw.dfs() } else { sw.test() }
@@ -340,6 +347,7 @@ fn mode_sweep(dir: &str, maxlen: usize) {
     for (t, (name, _)) in fns.iter().enumerate() {
         let mut counts = vec![[0u64; 5]; maxlen + 1];
         let mut kept = vec![0usize; maxlen + 1];
+        let (mut side_lines, mut side_cut) = (0usize, false);
         for (j, res) in results.iter().enumerate() {
             if jobs[j].0 != t { continue; }
             for (n, c) in res.counts.iter().enumerate() { for k in 0..5 { counts[n][k] += c[k]; } }
@@ -354,8 +362,15 @@ fn mode_sweep(dir: &str, maxlen: usize) {
                     rec.ev(json!({"ev": "parse", "api": "parse", "ty": name, "sy": toks, "r": -1, "val": [], "panic": m}));
                 }
             }
-            side.write_all(res.side.as_bytes()).unwrap();
+            if side_lines < SIDE_CAP_PER_TYPE {
+                side.write_all(res.side.as_bytes()).unwrap();
+                side_lines += res.side_lines;
+            } else if res.side_lines > 0 {
+                side_cut = true;
+            }
+            if res.side_lines >= SIDE_CAP_PER_TASK { side_cut = true; }
         }
+        if side_cut { writeln!(side, "# {}: list cut ({} panicking strings listed); the count events are complete", name, side_lines).unwrap(); }
         for (n, c) in counts.iter().enumerate() {
             total += c[C_ACC] + c[C_REJ] + c[C_PAN];
             rec.ev(json!({"ev": "count", "ty": name, "len": n, "alphabet": alphabet, "acc": c[C_ACC], "rej": c[C_REJ],
@@ -409,7 +424,7 @@ fn mode_long(dir: &str, thorough: bool) {
                             cases.push(c);
                         }
                     }
-                    if nd >= 48 { continue; }
+                    if nd >= 48 || (hash && !thorough) { continue; }
                     for i in 0..base.len() {
                         for j in (i + 1)..base.len() {
                             for (a, b) in &pair_syms {
@@ -789,11 +804,9 @@ fn mode_names(dir: &str, cases: &[Value], named_src: Option<String>) {
     // keywords: the model's list (from the cases file) and whatever the implementation enumerates
     let mut keys: Vec<String> = vec![];
     for c in cases {
-        if c["k"] == "names" {
-            keys.extend(c["names"].as_array().unwrap().iter().map(|x| x.as_str().unwrap().to_string()));
-        }
+        if c["k"] == "name" { keys.push(c["q"].as_str().unwrap().to_string()); }
     }
-    if keys.is_empty() { panic!("names mode needs the model's `names` line in --cases"); }
+    if keys.is_empty() { panic!("names mode needs the model's `name` lines in --cases"); }
     keys.extend(named::names().map(|s| s.to_string()));
     keys.sort();
     keys.dedup();
@@ -813,7 +826,7 @@ fn mode_names(dir: &str, cases: &[Value], named_src: Option<String>) {
             let del: String = ch.iter().enumerate().filter(|(j, _)| *j != i).map(|(_, c)| *c).collect();
             queries.push(del);
             let next = if ch[i] == 'z' { 'a' } else { ((ch[i] as u8) + 1) as char };
-            for r in [next, ch[i].to_ascii_uppercase(), '_', ' ', '0'] {
+            for r in [next, ch[i].to_ascii_uppercase(), '_', ' ', '0', '\u{e9}'] {
                 let mut s = ch.clone();
                 s[i] = r;
                 queries.push(s.into_iter().collect());
